@@ -364,7 +364,7 @@ class Interp:
             self.unsupported(st, f"raise of {v!r}")
         if isinstance(exc, ast.Call):
             # evaluate the arguments: they may themselves fail (e.g. attribute of None)
-            args = tuple(self.eval(a) for a in exc.args)
+            args = tuple(self._display(exc.args))
         self.raise_(name, st, args)
 
     def st_Try(self, st):
